@@ -89,6 +89,7 @@ type world struct {
 	allocOwner []int
 	wmSeq  int
 	roots  map[string]string // alloc|blobber -> current allocation root
+	readCtr map[string]int64 // alloc|blobber|client -> counter of the last redeemed read marker
 	lastOut string
 	chain   string // chain hash of the recorded lines (see record)
 	lastHash string
@@ -101,7 +102,7 @@ type world struct {
 func newWorld(tag string, mode string) (*world, error) {
 	fork := mode == "1" || mode == "2"
 	engine.Setup()
-	x := &world{tag: tag, nonce: map[string]int64{}, roots: map[string]string{}}
+	x := &world{tag: tag, nonce: map[string]int64{}, roots: map[string]string{}, readCtr: map[string]int64{}}
 	bal := map[string]currency.Coin{}
 	for i := range x.blob {
 		x.blob[i] = newActor(fmt.Sprintf("blobber-%d", i))
